@@ -68,11 +68,16 @@ func runC12(args []string) error {
 		return err
 	}
 	sm := newSummary("C12")
+	tPhase := time.Now()
+	phase := func(name string) {
+		sm.Notes = append(sm.Notes, fmt.Sprintf("phase %s: %.1fs", name, time.Since(tPhase).Seconds()))
+		tPhase = time.Now()
+	}
 	r := newRng(*seed)
 	distinct := distinctSet{}
-	nMini, nRich, nSnip, nMulti := 5, 5, 9, 20
+	nMini, nRounds, nSnip, nMulti := 3, 1, 6, 12
 	if *tier == "thorough" {
-		nMini, nRich, nSnip, nMulti = 80, 100, 12, 300
+		nMini, nRounds, nSnip, nMulti = 80, 25, 6, 300
 	}
 	id := 0
 	newID := func(input any) int {
@@ -103,25 +108,104 @@ func runC12(args []string) error {
 			return write(fmt.Sprintf("cases_mini_%d.v", k), body)
 		}
 		wits := c12Witnesses()
+		type mres struct {
+			src   string
+			refOK bool
+			ref   string
+			impl  c12Obs
+		}
+		type munit struct {
+			pi    int
+			p     *mprog
+			src   string
+			refOK bool
+			orig  c12Obs
+			note  string
+			muts  []mmutant
+			rs    []mres
+		}
+		// pass 1: programs and their mutants
+		var units []*munit
 		for pi := -len(wits); pi < nMini; pi++ {
-			var p *mprog
+			u := &munit{pi: pi}
 			if pi < 0 {
-				p = wits[pi+len(wits)].Orig
+				u.p = wits[pi+len(wits)].Orig
+				// the witnesses of the _refuted theorems of Props/C12.v, replayed on the implementation
+				u.muts = []mmutant{wits[pi+len(wits)].Mut}
 			} else {
-				p = c12MiniProgram(rm.fork())
+				u.p = c12MiniProgram(rm.fork())
+				for _, m := range c12MiniMutants(u.p) {
+					if m.Fam != "" {
+						u.muts = append(u.muts, m)
+					}
+				}
 			}
-			src := p.Go()
-			ck, err := c12TypeCheck(src, false)
-			refOK := err == nil && len(ck.Errs) == 0
+			u.src = u.p.Go()
+			u.rs = make([]mres, len(u.muts))
+			units = append(units, u)
+		}
+		// pass 2: go/types and the static passes of yaegi on everything, in parallel; the mutants that
+		// pass the static checks are evaluated in child processes (an accepted ill-typed program can take
+		// the host down: stack overflow, fatal errors)
+		type ref struct{ u, i int }
+		var work []ref
+		for ui, u := range units {
+			work = append(work, ref{ui, -1})
+			for i := range u.muts {
+				work = append(work, ref{ui, i})
+			}
+		}
+		parallelMap(len(work), 0, func(k int) {
+			u := units[work[k].u]
+			if i := work[k].i; i >= 0 {
+				ms := u.muts[i].Prog.Go()
+				u.rs[i].src = ms
+				mk, err := c12TypeCheck(ms, false)
+				if err != nil {
+					u.rs[i].ref = "parse error: " + err.Error()
+					return
+				}
+				u.rs[i].refOK = len(mk.Errs) == 0
+				if !u.rs[i].refOK {
+					u.rs[i].ref = mk.Errs[0]
+				}
+				u.rs[i].impl = c12Compile(ms, false, nil)
+				return
+			}
+			ck, err := c12TypeCheck(u.src, false)
+			u.refOK = err == nil && len(ck.Errs) == 0
 			// the property asks that the well-typed program is not rejected: the static passes succeed.
 			// Whether it then runs to completion is another property's business (counted, not judged).
-			o := c12Compile(src, false, nil)
-			if o.Class == "compiled" {
-				o.Class = "accepted"
-				if ro := c12EvalInProcess(src, false, nil, 90*time.Second); ro.Class != "accepted" {
-					sm.count("mini:original-fails-at-run-time(" + ro.Class + ")")
-					sm.Notes = append(sm.Notes, "a well-typed MiniGo program passes the static checks but fails at run time (not a C12 matter): "+ro.Err)
+			u.orig = c12Compile(u.src, false, nil)
+			if u.orig.Class == "compiled" {
+				u.orig.Class = "accepted"
+				if ro := c12EvalInProcess(u.src, false, nil, 90*time.Second); ro.Class != "accepted" {
+					u.note = ro.Class + " " + ro.Err
 				}
+			}
+		})
+		{
+			var esc []*c12richMutant
+			var where []ref
+			for ui, u := range units {
+				for i := range u.muts {
+					if u.rs[i].impl.Class == "compiled" {
+						esc = append(esc, &c12richMutant{Src: u.rs[i].src})
+						where = append(where, ref{ui, i})
+					}
+				}
+			}
+			c12BatchEval(esc)
+			for k, w := range where {
+				units[w.u].rs[w.i].impl = esc[k].Obs
+			}
+		}
+		// pass 3: cases
+		for _, u := range units {
+			pi, p, src, refOK, o, muts, rs := u.pi, u.p, u.src, u.refOK, u.orig, u.muts, u.rs
+			if u.note != "" {
+				sm.count("mini:original-fails-at-run-time")
+				sm.Notes = append(sm.Notes, "a well-typed MiniGo program passes the static checks but fails at run time (not a C12 matter): "+u.note)
 			}
 			sm.Evaluations++
 			sm.RefComparisons++
@@ -145,38 +229,6 @@ func runC12(args []string) error {
 			if len(sm.Samples) < 1 {
 				sm.Samples = append(sm.Samples, map[string]any{"stream": "mini", "source": src})
 			}
-			var muts []mmutant
-			if pi < 0 {
-				// the witnesses of the _refuted theorems of Props/C12.v, replayed on the implementation
-				muts = []mmutant{wits[pi+len(wits)].Mut}
-			} else {
-				for _, m := range c12MiniMutants(p) {
-					if m.Fam != "" {
-						muts = append(muts, m)
-					}
-				}
-			}
-			type mres struct {
-				src   string
-				refOK bool
-				ref   string
-				impl  c12Obs
-			}
-			rs := make([]mres, len(muts))
-			parallelMap(len(muts), 0, func(i int) {
-				ms := muts[i].Prog.Go()
-				rs[i].src = ms
-				mk, err := c12TypeCheck(ms, false)
-				if err != nil {
-					rs[i].ref = "parse error: " + err.Error()
-					return
-				}
-				rs[i].refOK = len(mk.Errs) == 0
-				if !rs[i].refOK {
-					rs[i].ref = mk.Errs[0]
-				}
-				rs[i].impl = c12Eval(ms, false, nil, 10*time.Second)
-			})
 			for i, m := range muts {
 				line := c12DiffLine(src, rs[i].src)
 				in := map[string]any{"stream": "mini", "operator": m.Mut, "site": m.Site, "line": line, "family": m.Fam}
@@ -201,14 +253,15 @@ func runC12(args []string) error {
 				}
 				cases = append(cases, fmt.Sprintf("(%d%%N, %s, Some (%s, %s), %d%%N, %d%%N, %s)", cid, pname, m.Mut, m.Site.Coq(), m.Prog.hash(), c12ClassCode(rs[i].impl.Class), coqBool(rs[i].refOK)))
 			}
-			if pi >= 0 && (pi%2 == 1 || pi == nMini-1) {
-				if err := flush(pi / 2); err != nil {
+			if pi >= 0 {
+				if err := flush(pi); err != nil {
 					return err
 				}
 			}
 		}
 	}
 
+	phase("mini")
 	// ------------------------------------------------------------ B. rich stream
 	var table []c12EscapeRow
 	if err := json.Unmarshal(c12EscapesJSON, &table); err != nil {
@@ -222,88 +275,79 @@ func runC12(args []string) error {
 		rr := r.fork()
 		type pair struct{ key, class string }
 		seen := map[pair]int{}
-		var cases []string
+		type rcase struct{ key, text string }
+		var rcases []rcase
 		dropped := 0
-		for pi := -1; pi < nRich; pi++ {
-			var p c12prog
-			if pi < 0 {
-				p = c12PreludeProgram(rr.fork())
+		jobs, err := c12RichPlan(rr, nRounds, nSnip)
+		if err != nil {
+			return err
+		}
+		phase("rich plan")
+		// the unmutated programs: well-typed for go/types, not rejected by yaegi
+		origs := make([]c12Obs, len(jobs))
+		refErrs := make([][]string, len(jobs))
+		parallelMap(len(jobs), 0, func(i int) {
+			j := jobs[i]
+			ck, err := c12TypeCheck(j.Src, false)
+			if err != nil {
+				refErrs[i] = []string{err.Error()}
 			} else {
-				p = c12Program(rr.fork(), nSnip)
+				refErrs[i] = ck.Errs
 			}
-			ck, err := c12TypeCheck(p.Src, true)
-			useStd := strings.Contains(p.Src, "\"strings\"")
-			o := c12Compile(p.Src, useStd, nil)
+			o := c12Compile(j.Src, j.UseStd, nil)
 			if o.Class == "compiled" {
 				o.Class = "accepted"
-				if ro := c12EvalInProcess(p.Src, useStd, nil, 90*time.Second); ro.Class != "accepted" {
-					sm.count("rich:original-fails-at-run-time(" + ro.Class + ")")
+				if ro := c12EvalInProcess(j.Src, j.UseStd, nil, 90*time.Second); ro.Class != "accepted" {
+					o.Err = "fails at run time: " + ro.Class + " " + ro.Err
 				}
 			}
+			origs[i] = o
+		})
+		for i, j := range jobs {
 			sm.Evaluations++
 			sm.RefComparisons++
 			sm.count("rich:original")
-			if err != nil || len(ck.Errs) > 0 || o.Class != "accepted" {
-				cid := newID(map[string]any{"stream": "rich", "kind": "original", "source": p.Src})
-				var refErrs any
-				if ck != nil {
-					refErrs = ck.Errs
-				}
-				sm.RefMismatches = append(sm.RefMismatches, refMismatch{ID: cid, Region: "", Input: p.Src, Impl: o, Ref: refErrs, Note: "unmutated template program"})
-				continue
+			if strings.HasPrefix(origs[i].Err, "fails at run time") {
+				sm.count("rich:original-fails-at-run-time")
+				sm.Notes = append(sm.Notes, "a well-typed template program ("+j.Name+") passes the static checks but "+origs[i].Err)
 			}
-			for _, s := range p.Snippets {
-				sm.count("rich:snippet:" + s)
+			if len(refErrs[i]) > 0 || origs[i].Class != "accepted" {
+				cid := newID(map[string]any{"stream": "rich", "kind": "original", "source": j.Src})
+				sm.RefMismatches = append(sm.RefMismatches, refMismatch{ID: cid, Region: "", Input: j.Src, Impl: origs[i], Ref: refErrs[i], Note: "unmutated template program"})
+				j.Muts = nil
 			}
-			muts := c12Mutants(p.Src, ck)
-			{
-				// the sites of the prelude are mutated in the prelude program only, the others never there
-				var keep []c12mutant
-				for _, mu := range muts {
-					if mu.Prelude == (pi < 0) {
-						keep = append(keep, mu)
-					}
-				}
-				muts = keep
+			for _, sn := range j.Snippets {
+				sm.count("rich:snippet:" + sn)
 			}
-			res := make([]c12Obs, len(muts))
-			ill := make([]bool, len(muts))
-			parallelMap(len(muts), 0, func(i int) {
-				mk, err := c12TypeCheck(muts[i].Src, false)
-				if err != nil {
-					muts[i].RefErr = "parse error"
-					ill[i] = false
-					return
-				}
-				if len(mk.Errs) == 0 {
-					return
-				}
-				ill[i] = true
-				muts[i].RefErr = mk.Errs[0]
-				res[i] = c12Eval(muts[i].Src, useStd, nil, 20*time.Second)
-			})
-			for i, m := range muts {
-				if !ill[i] {
+		}
+		phase("rich originals")
+		c12RichEval(jobs)
+		phase("rich eval")
+		for _, j := range jobs {
+			for _, m := range j.Muts {
+				if m.RefErr == "" {
 					dropped++
 					sm.count("rich:dropped(go/types accepts or parse error)")
 					continue
 				}
-				key := m.Op + " | " + m.Ctx
-				class := res[i].Class
+				key, class := m.Key, m.Obs.Class
 				sm.Evaluations++
 				sm.RefComparisons++
 				sm.ImplComparisons++
-				sm.count("rich:op-" + m.Op[:2])
+				sm.count("rich:op-" + key[:2])
 				sm.count("rich:" + class)
+				if strings.Contains(key, "-sweep") {
+					sm.count("rich:type-class-sweep")
+				}
 				distinct.add("rich", key)
 				pr := pair{key, class}
 				cid, dup := seen[pr]
 				if !dup {
-					cid = newID(map[string]any{"stream": "rich", "key": key, "line": m.Line, "go/types": m.RefErr, "yaegi": res[i]})
+					cid = newID(map[string]any{"stream": "rich", "key": key, "line": m.Line, "go/types": m.RefErr, "yaegi": m.Obs})
 					seen[pr] = cid
-					cases = append(cases, fmt.Sprintf("(%d%%N, %s, %d%%N)", cid, coqRawStr(key), c12ClassCode(class)))
+					rcases = append(rcases, rcase{key, fmt.Sprintf("(%d%%N, %s, %d%%N)", cid, coqRawStr(key), c12ClassCode(class))})
 					if len(sm.Samples) < 4 && class == "rejected" {
-						sm.Samples = append(sm.Samples, map[string]any{"stream": "rich", "key": key, "line": m.Line, "go/types": m.RefErr, "yaegi": res[i].Err})
+						sm.Samples = append(sm.Samples, map[string]any{"stream": "rich", "key": key, "line": m.Line, "go/types": m.RefErr, "yaegi": m.Obs.Err})
 					}
 				}
 				if class != "rejected" && !dup {
@@ -316,12 +360,20 @@ func runC12(args []string) error {
 						// not a known escape: the whole mutated source is the replay
 						in["source"] = m.Src
 					}
-					sm.RefMismatches = append(sm.RefMismatches, refMismatch{ID: cid, Region: region, Input: in, Impl: res[i], Ref: "go/types: " + m.RefErr})
+					sm.RefMismatches = append(sm.RefMismatches, refMismatch{ID: cid, Region: region, Input: in, Impl: m.Obs, Ref: "go/types: " + m.RefErr})
 				}
 			}
 		}
-		sort.Strings(cases)
-		per := 1500
+		// sorted by key (byte order), as the table of Tc/Escapes.v is: Cases.rich_mis_y merges the two
+		sort.SliceStable(rcases, func(a, b int) bool { return rcases[a].key < rcases[b].key })
+		cases := make([]string, len(rcases))
+		for i, c := range rcases {
+			cases[i] = c.text
+		}
+		per := (len(cases) + 7) / 8
+		if per < 200 {
+			per = 200
+		}
 		for i, k := 0, 0; i < len(cases); i, k = i+per, k+1 {
 			j := i + per
 			if j > len(cases) {
@@ -335,6 +387,7 @@ func runC12(args []string) error {
 		sm.Notes = append(sm.Notes, fmt.Sprintf("rich stream: %d mutants accepted by go/types (or unparsable) were discarded; %d escape keys are listed in harness/c12_escapes.json", dropped, len(table)))
 	}
 
+	phase("rich cases")
 	// ------------------------------------------------------------ C. multi-package stream
 	{
 		rq := r.fork()
@@ -389,6 +442,7 @@ func runC12(args []string) error {
 		}
 	}
 
+	phase("multi")
 	sm.DistinctNontriv = len(distinct)
 	sm.Rule = "mini: MiniGo programs (3 helper + 3-4 generated functions, structs, named types, slices) x every operator of Tc/Mutations.v at every node inside the family modelled by Y; " +
 		"rich: template programs (prelude with methods, interfaces, channels, closures + seeded statement snippets) x the 35-operator catalogue at every applicable site, mutants go/types accepts discarded; " +
